@@ -275,7 +275,7 @@ NAME_POOLS = {
     "distinct": ["a", "b", "c", "d", "e", "f", "g", "h", "i", "j", "k", "l", "m"],
     "repeated": ["a", "b", "c"],
     "affix": ["a", "xa", "ab", "b", "bc", "abc", "c", "xab"],
-    "special": ["a.b", "(", "+", "a b", "a'", "0", "a1", "10", "-", "b|c", "x/y", "é", "a-"],
+    "special": ["a.b", "(", "+", "a b", "a'", "0", "a1", "10", "-", "b|c", "x/y", "é", "a-", " b", "c ", "\\d"],
 }
 SEPS = ["/", "\\", "-", ".", "|"]
 
@@ -432,7 +432,7 @@ def corpus(prop):
 
 
 def generate(prop, rng, tier):
-    count = {"quick": 1300, "thorough": 20000, "search": 3000}[tier]
+    count = {"quick": 1000, "thorough": 20000, "search": 3000}[tier]
     for _ in range(count):
         c = gen_case(rng)
         yield c["stratum"], c
